@@ -27,11 +27,14 @@ from allmydata.storage.lease import LeaseInfo
 from allmydata.storage import lease as lease_mod
 
 B = hlib.bounds()
-PREFIXES = ["aa", "ab", "ac"]
-LAYOUT = B.get("layout", [["aa1", "aa2"], [], ["ac1"]])
+# PREFIXES is the order in which the constructor *generates* the prefixes (the real table is generated in base32-alphabet
+# order, a..z then 2..7, which is not ASCII order: "bq" is generated before "b3"); the crawl must follow ASCII order
+PREFIXES = B.get("prefixes", ["aa", "ab", "ac"])
+LAYOUT = B.get("layout", [["aa1", "aa2"], [], ["ac1"]])      # LAYOUT[i] = buckets of PREFIXES[i]
 J = B.get("J", 40)
 MAXSLICES = 14
 TRANSIENT = "ab5"
+MAXPERM = 6 if max(len(x) for x in LAYOUT) >= 3 else 2      # distinct listing orders worth trying for this layout
 
 NOTES = [
     "ShareCrawler.prefixes cut from 1024 to 3 entries (aa, ab, ac): during construction `range(2**10)` in storage.crawler yields 3 values and "
@@ -69,6 +72,9 @@ class _World(object):
         self.log = []          # (incarnation, kind, ...)
         self.incarnation = 0
         self.listings = 0
+        self.perm = None       # None: listings come reversed; else index of the permutation applied to every directory listing
+        self.restart_after = 0  # clean stop + restart after this many completed slices (0 = never)
+        self.slices_done = 0
         self.transient = None  # (k, appears): bucket TRANSIENT exists from / until the k-th prefix listing
 
     def event(self):
@@ -135,14 +141,51 @@ def _move_into_place(src, dst):
     W.event()
 
 
+_PERMS = {0: [[]], 1: [[0]], 2: [[1, 0], [0, 1]],
+          3: [[2, 1, 0], [0, 1, 2], [0, 2, 1], [1, 0, 2], [1, 2, 0], [2, 0, 1]]}
+
+
+def _permuted(names, perm):
+    """directory entries in the order the file system happens to return them"""
+    table = _PERMS[len(names)]
+    order = table[0] if perm is None else table[perm % len(table)]
+    return [names[i] for i in order]
+
+
+class _DirEntry(object):
+    def __init__(self, d, name):
+        self.name = name
+        self.path = d + "/" + name
+
+    def is_dir(self, follow_symlinks=True):
+        return True
+
+    def is_file(self, follow_symlinks=True):
+        return False
+
+
+class _ScanDir(list):
+    def __enter__(self):
+        return self
+
+    def __exit__(self, *a):
+        return False
+
+    def close(self):
+        pass
+
+
 class _FakeOS(object):
     path = _real_os.path
+
+    def scandir(self, d):
+        return _ScanDir([_DirEntry(d, n) for n in self.listdir(d)])
 
     def listdir(self, d):
         if d.startswith("shares/"):
             rest = d[len("shares/"):]
             if rest in PREFIXES:
-                out = list(reversed(LAYOUT[PREFIXES.index(rest)]))      # unsorted on purpose
+                out = _permuted(sorted(LAYOUT[PREFIXES.index(rest)]), W.perm)   # unsorted on purpose
                 W.listings += 1
                 if W.transient is not None and rest == TRANSIENT[:2]:
                     (k, appears) = W.transient
@@ -250,7 +293,7 @@ def _new_crawler(cls, *extra):
     finally:
         del crawler_mod.range
         crawler_mod.si_b2a = saved
-    if c.prefixes != PREFIXES:
+    if sorted(c.prefixes) != sorted(PREFIXES):
         raise hlib.HarnessError("prefix table cut failed: %r" % (c.prefixes,))
     c.startService()
     return c
@@ -265,7 +308,8 @@ def _disk_state():
 
 def _all_buckets():
     out = []
-    for i, p in enumerate(PREFIXES):
+    for p in sorted(PREFIXES):              # the documented crawl order: prefixes ascending, buckets ascending
+        i = PREFIXES.index(p)
         for b in sorted(LAYOUT[i]):
             out.append((p, b))
     return out
@@ -322,6 +366,14 @@ def _drive(cls, extra, want_cycles):
             return "sleep after an interrupted slice outside [0, 299]", lcf_seen
         if lcf is not None and lcf >= want_cycles - 1:
             return None, lcf_seen
+        W.slices_done += 1
+        if W.slices_done == W.restart_after:
+            # the node is shut down cleanly between two slices (real stopService: timer cancelled, state saved) and started again
+            c.stopService()
+            if not nt.cancelled or c.timer is not None:
+                return "stopService left the wake-up timer armed", lcf_seen
+            W.timers[:] = []
+            c = _boot(cls, extra)
     return "did not finish %d cycles within %d slices" % (want_cycles, MAXSLICES), lcf_seen
 
 
@@ -408,6 +460,42 @@ def h_crawl_transient(j1: int, k: int, appears: bool) -> bool:
     err, lcf_seen = _drive(RecCrawler, (), 2)
     if err:
         return err
+    err = _check_lcf(lcf_seen, 2) or _check_coverage(2, True)
+    if err:
+        return err
+    return True
+
+
+def h_crawl_order(j1: int, perm: int) -> bool:
+    """
+    pre: 1 <= j1 <= J
+    pre: 0 <= perm < MAXPERM
+    post: _ == True
+    """
+    W.reset(j1, J + 1000, 0)
+    W.perm = perm
+    err, lcf_seen = _drive(RecCrawler, (), 2)
+    if err:
+        return err
+    err = _check_lcf(lcf_seen, 2) or _check_coverage(2, True)
+    if err:
+        return err
+    return True
+
+
+def h_crawl_clean_restart(j1: int, j2: int, restart_after: int) -> bool:
+    """
+    pre: 1 <= j1 < j2 <= J + 1
+    pre: B.get("two_jumps", False) or j2 == J + 1
+    pre: 1 <= restart_after <= B.get("restart_max", 5)
+    post: _ == True
+    """
+    W.reset(j1, j2, 0)
+    W.restart_after = restart_after
+    err, lcf_seen = _drive(RecCrawler, (), 2)
+    if err:
+        return err
+    # nobody was killed in the middle of a slice: exactly once
     err = _check_lcf(lcf_seen, 2) or _check_coverage(2, True)
     if err:
         return err
